@@ -7,6 +7,10 @@ LEVEL = "Bounded symbolic model checking of the implementation: the real functio
 TRUST = "Trusted: the shims in /verif/symx (numpy/pandas/file-system/RNG/joblib contracts of DESIGN.md section 1.3, differentially validated against the real libraries on sampled paths at every run), z3, float = mathematical real, typeguard/numba made transparent."
 CHECKS = {
  "C01": ("section 2 C01", "N <= 4 (quick) / 5 (thorough) PSMs; score dtypes float/int; label dtypes bool/int/float; both directions; symbolic eval_fdr. " + TRUST),
+ "C17": ("section 2 C17", "sequence length L <= 4 (quick) / 6 (thorough) over A-Z, three enzyme patterns ([KR], [KR](?!P), \\w(?=D)), missed cleavages 0..3, all length bounds, semi/clip symbolic. The regex engine is the stub symx.rx (compared with the real re in the preflight); patterns with zero-width matches are outside. " + TRUST),
+ "C18": ("section 2 C18", "_shuffle_proteins: one protein L <= 5 (quick) / 7 (thorough) and two proteins 4+4, shuffle and reverse, arbitrary RNG permutation (all permutations for n <= 4); make_decoys round trip on a VFS for sequence lengths 0,1,2,3,5,69..72,141 (K/R-free residues). textwrap.wrap runs natively on token strings (preflight-compared); sequences with whitespace/hyphens outside. " + TRUST),
+ "C19": ("section 2 C19", "0..2 (quick) / 0..3 (thorough) feature columns, 1..2 / 1..3 PSM rows, 1..3 proteins per row, protein column anywhere, optional DefaultDirection line, with/without trailing newline; fields are opaque non-empty atoms without separators (PIN format). Header-only files (0 rows) are outside. " + TRUST),
+ "C20": ("section 2 C20", "record-building generators _parse_msms_run/_parse_spectrum/_parse_psm over an element stub: peptide L <= 4, <= 3 modifications at ascending symbolic positions with mass strings of symbolic length 1..9, <= 2 alternative proteins with symbolic decoy flags, optional attributes, up to 2 runs x 2 spectra x 2 hits. etree.iterparse, DataFrame assembly and feature post-processing are outside the symbolic run (exercised concretely by the replay through read_pepxml). " + TRUST),
 }
 NA = {
  "C06": "PEP estimators (qvality spline fit, KDE + NNLS, histogram NNLS) are iterative IEEE floating-point computations in C/Fortran-backed libraries on >= 50 PSMs; no faithful bounded SMT encoding is within reach and a real-arithmetic stub would assume the conclusion (DESIGN.md section 2 C06).",
